@@ -1,6 +1,1709 @@
-//! C08 — not built yet.
-use crate::report::{Ctx, Reporter};
+//! C08 — HTTP/2 responses are complete and well-described under any flow-control schedule.
+//!
+//! World: the real `HttpService` (`Protocol::Http2`) on one end of a `tokio::io::duplex` pipe, an
+//! `h2` client on the other, everything on one single-threaded runtime with the clock paused.  The
+//! handler is an interpreter of per-stream programs (status, user headers, body kind, body script);
+//! body bytes are a fixed function of (stream, offset) so any loss, duplication, reordering or
+//! cross-stream mixing is visible.  The client reads DATA but returns flow-control credit only when
+//! the stream's release schedule says so (immediately / every k chunks / n bytes per step / only
+//! when the whole system is quiescent / never), resets streams at scripted points, opens streams
+//! late and may resize SETTINGS_INITIAL_WINDOW_SIZE in mid-connection.
+//!
+//! Stall verdicts are logical: the client waits inside `tokio::time::timeout` on a paused clock,
+//! which can only fire when no task is runnable.  On such a quiescence the client first hands back
+//! every deferred credit; only a quiescence at which it holds nothing back (victims excepted, and
+//! only while they leave connection window) convicts an unfinished stream.
+//!
+//! Oracle (per stream, see `judge`): head arrives with the program's status; none of `connection`,
+//! `transfer-encoding`, `upgrade`, `keep-alive`, `proxy-connection`; HEAD/204/304 carry no DATA;
+//! otherwise the received bytes are exactly the script's bytes and the stream ends cleanly; a body
+//! that fails ends the stream with an error after a correct prefix (never a clean end);
+//! `content-length`, when present, is single and equals the body length.  Independence: streams
+//! that are reset by the client or never released only owe a correct prefix, every other stream of
+//! the same connection still owes everything; a victim released late owes everything too.
 
-pub fn run(_ctx: &Ctx, rep: &mut Reporter) {
-    rep.inconclusive("C08 monitor not built");
+use std::{
+    cell::RefCell,
+    collections::VecDeque,
+    future::Future,
+    io,
+    pin::Pin,
+    rc::Rc,
+    task::{Context, Poll},
+    time::Duration,
+};
+
+use actix_http::{
+    body::{BodySize, BodyStream, BoxBody, MessageBody, SizedStream},
+    HttpService, KeepAlive, Protocol, Request, Response, StatusCode,
+};
+use actix_service::{fn_service, Service as _, ServiceFactory as _};
+use bytes::Bytes;
+use futures_core::Stream;
+use serde::{Deserialize, Serialize};
+use serde_json::json;
+
+use crate::{
+    report::{guard, panic_site, Ctx, Reporter},
+    util::Rng,
+    world::exec::run_virtual,
+};
+
+const HOP: [&str; 5] = ["connection", "transfer-encoding", "upgrade", "keep-alive", "proxy-connection"];
+const FRAME: usize = 16_384;
+
+// ------------------------------------------------------------------------------------------------
+// case description
+
+#[derive(Clone, Copy, Debug, PartialEq, Eq, Serialize, Deserialize)]
+enum Kind {
+    /// `body::None`
+    None,
+    /// one `Bytes` holding the script's concatenation
+    Bytes,
+    /// `SizedStream::new(declared, script)`
+    SizedStream,
+    /// `BodyStream::new(script)`
+    BodyStream,
+    /// custom `MessageBody`, `BodySize::Stream`, yields the script verbatim (empty chunks too)
+    CustomStream,
+    /// custom `MessageBody`, `BodySize::Sized(declared)`, yields the script verbatim
+    CustomSized,
+}
+
+impl Kind {
+    fn sized(self) -> bool {
+        matches!(self, Kind::Bytes | Kind::SizedStream | Kind::CustomSized)
+    }
+    fn scripted(self) -> bool {
+        !matches!(self, Kind::None | Kind::Bytes)
+    }
+    fn verbatim(self) -> bool {
+        matches!(self, Kind::CustomStream | Kind::CustomSized)
+    }
+}
+
+#[derive(Clone, Copy, Debug, PartialEq, Eq, Serialize, Deserialize)]
+enum Step {
+    /// yield a chunk of this many bytes (0: an empty chunk)
+    D(usize),
+    /// return `Pending` once after waking the task
+    Y,
+    /// the body fails here
+    E,
+}
+
+#[derive(Clone, Copy, Debug, PartialEq, Eq, Serialize, Deserialize)]
+enum Late {
+    /// once every other stream is finished, release everything and read on: must complete exactly
+    Release,
+    /// once every other stream is finished, reset the stream
+    Reset,
+    /// keep holding until the connection is dropped
+    Hold,
+}
+
+#[derive(Clone, Copy, Debug, PartialEq, Eq, Serialize, Deserialize)]
+enum Rel {
+    Imm,
+    /// release everything held once k chunks are held
+    Every(usize),
+    /// release at most n bytes per client step
+    Drip(usize),
+    /// release only when nothing in the system can move any more
+    Lazy,
+    /// never release (victim)
+    Never(Late),
+}
+
+#[derive(Clone, Copy, Debug, PartialEq, Eq, Serialize, Deserialize)]
+enum ResetAt {
+    /// before any response event, as soon as the request has reached its handler
+    Open,
+    /// when the response head arrives
+    Head,
+    /// after this many DATA chunks were received (>= 1)
+    Chunk(usize),
+}
+
+#[derive(Clone, Debug, PartialEq, Serialize, Deserialize)]
+struct StreamSpec {
+    /// "GET" | "HEAD" | "POST"
+    method: String,
+    /// request body length (POST only); the handler reads it to the end before answering
+    req_body: usize,
+    status: u16,
+    /// response headers set by the handler (hop-by-hop ones, content-length, benign ones)
+    hdrs: Vec<(String, String)>,
+    kind: Kind,
+    steps: Vec<Step>,
+    /// declared size of sized stream kinds = sum of all D steps + delta (delta != 0: a lying body)
+    delta: i64,
+    /// answer through the service's `Err` path
+    fail: bool,
+    rel: Rel,
+    reset: Option<ResetAt>,
+    /// open the stream only after this many client events (0: up front)
+    open_after: usize,
+}
+
+#[derive(Clone, Debug, PartialEq, Serialize, Deserialize)]
+struct Case {
+    /// client SETTINGS_INITIAL_WINDOW_SIZE
+    sw: u32,
+    /// client connection window target
+    cw: u32,
+    /// capacity of the in-memory pipe
+    pipe: usize,
+    /// server keep-alive (HTTP/2 ping-pong) in seconds, 0 = disabled
+    keep_alive_s: u64,
+    /// server windows (request bodies)
+    srv_sw: u32,
+    srv_cw: u32,
+    /// change SETTINGS_INITIAL_WINDOW_SIZE to .1 after .0 client events
+    resize: Option<(usize, u32)>,
+    streams: Vec<StreamSpec>,
+}
+
+impl StreamSpec {
+    fn data_all(&self) -> usize {
+        self.steps.iter().map(|s| if let Step::D(n) = s { *n } else { 0 }).sum()
+    }
+    /// bytes the body produces before it ends or fails
+    fn total(&self) -> usize {
+        match self.kind {
+            Kind::None => 0,
+            Kind::Bytes => self.data_all(),
+            _ => {
+                let mut t = 0;
+                for s in &self.steps {
+                    match s {
+                        Step::D(n) => t += n,
+                        Step::E => break,
+                        Step::Y => {}
+                    }
+                }
+                t
+            }
+        }
+    }
+    fn errs(&self) -> bool {
+        self.kind.scripted() && self.steps.contains(&Step::E)
+    }
+    fn declared(&self) -> u64 {
+        (self.data_all() as i64 + self.delta).max(0) as u64
+    }
+    fn liar(&self) -> bool {
+        matches!(self.kind, Kind::SizedStream | Kind::CustomSized) && self.delta != 0
+    }
+    fn head_only(&self) -> bool {
+        self.method == "HEAD"
+    }
+    fn bodiless(&self) -> bool {
+        self.head_only() || self.status == 204 || self.status == 304
+    }
+    fn victim(&self) -> bool {
+        matches!(self.rel, Rel::Never(_))
+    }
+    /// chunking class relative to the stream window and the 16 KiB send unit
+    fn chunk_class(&self, sw: u32) -> String {
+        let sw = sw as usize;
+        let mut f: Vec<&str> = vec![];
+        let ds: Vec<usize> = self.steps.iter().filter_map(|s| if let Step::D(n) = s { Some(*n) } else { None }).collect();
+        if self.kind == Kind::None {
+            return "none".into();
+        }
+        if self.kind == Kind::Bytes {
+            let t = self.data_all();
+            return format!("bytes{}{}{}", if t == 0 { ":empty" } else { "" }, if t > sw { ":>win" } else { "" }, if t > FRAME { ":>16k" } else { "" });
+        }
+        if ds.is_empty() {
+            f.push("nochunk");
+        }
+        if ds.len() == 1 {
+            f.push("single");
+        }
+        if ds.len() > 1 {
+            f.push("multi");
+        }
+        if ds.iter().any(|&n| n == 0) {
+            f.push(if self.kind.verbatim() { "empty" } else { "empty-filtered" });
+        }
+        if ds.iter().any(|&n| n > sw) {
+            f.push(">win");
+        }
+        if ds.iter().any(|&n| n == sw) {
+            f.push("=win");
+        }
+        if ds.iter().any(|&n| n > FRAME) {
+            f.push(">16k");
+        }
+        if ds.iter().any(|&n| n == FRAME) {
+            f.push("=16k");
+        }
+        if self.steps.contains(&Step::Y) {
+            f.push("yield");
+        }
+        if self.steps.contains(&Step::E) {
+            f.push("err");
+        }
+        f.join(":")
+    }
+    /// input class used in violation signatures: specific, but independent of sizes and seeds
+    fn class(&self) -> String {
+        let has_empty = self.kind.verbatim() && self.steps.iter().any(|s| *s == Step::D(0));
+        let mut hop: Vec<&str> = self.hdrs.iter().map(|(k, _)| k.as_str()).filter(|k| HOP.contains(k)).collect();
+        hop.sort_unstable();
+        hop.dedup();
+        format!(
+            "{} {} {:?}{}{}{}{}{}{}",
+            self.method,
+            self.status,
+            self.kind,
+            if has_empty { " empty-chunk" } else { "" },
+            if self.errs() { " body-err" } else { "" },
+            if self.liar() { " lying-size" } else { "" },
+            if self.fail { " via-err" } else { "" },
+            if self.hdrs.iter().any(|(k, _)| k == "content-length") { " user-cl" } else { "" },
+            if hop.is_empty() { String::new() } else { format!(" hop[{}]", hop.join(",")) },
+        )
+    }
+}
+
+/// byte at offset `o` of response body `i`
+#[inline]
+fn pat(i: usize, o: usize) -> u8 {
+    let x = (o as u32).wrapping_mul(2_654_435_761).wrapping_add((i as u32).wrapping_mul(40_503));
+    (x >> 23) as u8 ^ (o as u8)
+}
+
+fn fill(i: usize, off: usize, len: usize) -> Bytes {
+    let mut v = Vec::with_capacity(len);
+    for k in 0..len {
+        v.push(pat(i, off + k));
+    }
+    Bytes::from(v)
+}
+
+// ------------------------------------------------------------------------------------------------
+// server side: handler interpreter
+
+#[derive(Clone, Debug, Default)]
+struct Rec {
+    invoked: u32,
+    method: String,
+    req_len: usize,
+    req_bad_at: Option<usize>,
+    req_end: Option<Result<(), String>>,
+    yielded: usize,
+    chunks: usize,
+    empty_chunks: usize,
+    /// offset at which the last non-empty chunk yielded so far starts
+    last_start: usize,
+    /// 0 open, 1 ended, 2 failed
+    end: u8,
+    body_made: bool,
+    dropped: bool,
+}
+
+struct Sh {
+    specs: Vec<StreamSpec>,
+    recs: Vec<Rec>,
+}
+type Shared = Rc<RefCell<Sh>>;
+
+struct Script {
+    sh: Shared,
+    idx: usize,
+    steps: VecDeque<Step>,
+    off: usize,
+    over: bool,
+}
+
+impl Stream for Script {
+    type Item = Result<Bytes, io::Error>;
+    fn poll_next(mut self: Pin<&mut Self>, cx: &mut Context<'_>) -> Poll<Option<Self::Item>> {
+        if self.over {
+            return Poll::Ready(None);
+        }
+        match self.steps.pop_front() {
+            None => {
+                self.over = true;
+                self.sh.borrow_mut().recs[self.idx].end = 1;
+                Poll::Ready(None)
+            }
+            Some(Step::Y) => {
+                cx.waker().wake_by_ref();
+                Poll::Pending
+            }
+            Some(Step::E) => {
+                self.over = true;
+                self.sh.borrow_mut().recs[self.idx].end = 2;
+                Poll::Ready(Some(Err(io::Error::other("scripted body error"))))
+            }
+            Some(Step::D(n)) => {
+                let b = fill(self.idx, self.off, n);
+                let start = self.off;
+                self.off += n;
+                let mut sh = self.sh.borrow_mut();
+                let r = &mut sh.recs[self.idx];
+                if n > 0 {
+                    r.last_start = start;
+                }
+                r.yielded += n;
+                r.chunks += 1;
+                if n == 0 {
+                    r.empty_chunks += 1;
+                }
+                Poll::Ready(Some(Ok(b)))
+            }
+        }
+    }
+}
+
+impl Drop for Script {
+    fn drop(&mut self) {
+        if let Ok(mut sh) = self.sh.try_borrow_mut() {
+            sh.recs[self.idx].dropped = true;
+        }
+    }
+}
+
+struct Custom {
+    size: BodySize,
+    inner: Script,
+}
+
+impl MessageBody for Custom {
+    type Error = io::Error;
+    fn size(&self) -> BodySize {
+        self.size
+    }
+    fn poll_next(mut self: Pin<&mut Self>, cx: &mut Context<'_>) -> Poll<Option<Result<Bytes, io::Error>>> {
+        Pin::new(&mut self.inner).poll_next(cx)
+    }
+}
+
+struct HErr(Response<BoxBody>);
+
+impl std::fmt::Debug for HErr {
+    fn fmt(&self, f: &mut std::fmt::Formatter<'_>) -> std::fmt::Result {
+        f.write_str("HErr")
+    }
+}
+
+impl From<HErr> for Response<BoxBody> {
+    fn from(e: HErr) -> Self {
+        e.0
+    }
+}
+
+async fn handler(sh: Shared, mut req: Request) -> Result<Response<BoxBody>, HErr> {
+    use futures_util::StreamExt as _;
+    let idx: usize = req.path().trim_start_matches('/').parse().unwrap_or(usize::MAX);
+    let spec = {
+        let mut s = sh.borrow_mut();
+        if idx >= s.specs.len() {
+            return Ok(Response::build(StatusCode::IM_A_TEAPOT).finish().map_into_boxed_body());
+        }
+        s.recs[idx].invoked += 1;
+        s.recs[idx].method = req.method().as_str().to_string();
+        s.specs[idx].clone()
+    };
+    if spec.method == "POST" {
+        let mut pl = req.take_payload();
+        let mut off = 0usize;
+        loop {
+            match pl.next().await {
+                Some(Ok(c)) => {
+                    let mut s = sh.borrow_mut();
+                    let r = &mut s.recs[idx];
+                    for (k, b) in c.iter().enumerate() {
+                        if *b != pat(idx + 1000, off + k) && r.req_bad_at.is_none() {
+                            r.req_bad_at = Some(off + k);
+                        }
+                    }
+                    off += c.len();
+                    r.req_len = off;
+                }
+                Some(Err(e)) => {
+                    sh.borrow_mut().recs[idx].req_end = Some(Err(format!("{e:?}")));
+                    break;
+                }
+                None => {
+                    sh.borrow_mut().recs[idx].req_end = Some(Ok(()));
+                    break;
+                }
+            }
+        }
+    }
+
+    let mut rb = Response::build(StatusCode::from_u16(spec.status).unwrap_or(StatusCode::OK));
+    rb.insert_header(("x-idx", idx.to_string()));
+    for (k, v) in &spec.hdrs {
+        rb.append_header((k.as_str(), v.as_str()));
+    }
+    let script = |sh: &Shared| Script { sh: sh.clone(), idx, steps: spec.steps.iter().copied().collect(), off: 0, over: false };
+    let body: BoxBody = match spec.kind {
+        Kind::None => {
+            sh.borrow_mut().recs[idx].end = 1;
+            BoxBody::new(actix_http::body::None::new())
+        }
+        Kind::Bytes => {
+            let n = spec.data_all();
+            {
+                let mut s = sh.borrow_mut();
+                let r = &mut s.recs[idx];
+                r.yielded = n;
+                r.chunks = 1;
+                r.end = 1;
+            }
+            BoxBody::new(fill(idx, 0, n))
+        }
+        Kind::SizedStream => BoxBody::new(SizedStream::new(spec.declared(), script(&sh))),
+        Kind::BodyStream => BoxBody::new(BodyStream::new(script(&sh))),
+        Kind::CustomStream => BoxBody::new(Custom { size: BodySize::Stream, inner: script(&sh) }),
+        Kind::CustomSized => BoxBody::new(Custom { size: BodySize::Sized(spec.declared()), inner: script(&sh) }),
+    };
+    sh.borrow_mut().recs[idx].body_made = true;
+    let res = rb.message_body(body).map_err(|_| HErr(Response::internal_server_error().map_into_boxed_body()))?;
+    if spec.fail {
+        Err(HErr(res))
+    } else {
+        Ok(res)
+    }
+}
+
+// ------------------------------------------------------------------------------------------------
+// client side
+
+#[derive(Clone, Debug, PartialEq)]
+enum End {
+    /// not opened / no terminal event yet
+    Open,
+    Clean,
+    Err(String),
+    ClientReset,
+}
+
+enum Phase {
+    Unopened,
+    Head(h2::client::ResponseFuture),
+    Body,
+    Done,
+}
+
+struct CStream {
+    phase: Phase,
+    send: Option<h2::SendStream<Bytes>>,
+    recv: Option<h2::RecvStream>,
+    rel: Rel,
+    head: Option<(u16, Vec<(String, Vec<u8>)>)>,
+    open_err: Option<String>,
+    got: usize,
+    bad_at: Option<usize>,
+    nchunks: usize,
+    max_chunk: usize,
+    pending: usize,
+    pending_chunks: usize,
+    end: End,
+    trailers: bool,
+    stalled: bool,
+    /// owes a complete response (false for client-reset streams and unreleased victims)
+    late_released: bool,
+    window_full: u64,
+}
+
+#[derive(Debug)]
+enum Ev {
+    Conn,
+    Head(usize),
+    Data(usize),
+    End(usize),
+}
+
+/// everything the oracle sees of one run
+struct Obs {
+    streams: Vec<SObs>,
+    recs: Vec<Rec>,
+    conn_end: Option<Option<String>>,
+    handshake_err: Option<String>,
+    events: u64,
+    quiescences: u64,
+    flushes: u64,
+    phase2: bool,
+    victims_choked_conn: bool,
+    read_ahead: usize,
+    server: String,
+    harness: Vec<String>,
+    virtual_ms: u64,
+}
+
+#[derive(Clone, Debug)]
+struct SObs {
+    head: Option<(u16, Vec<(String, Vec<u8>)>)>,
+    open_err: Option<String>,
+    got: usize,
+    bad_at: Option<usize>,
+    nchunks: usize,
+    max_chunk: usize,
+    end: End,
+    trailers: bool,
+    stalled: bool,
+    late_released: bool,
+    window_full: u64,
+    held_at_end: usize,
+}
+
+struct Client {
+    case: Case,
+    /// the handlers' world: read only, to learn that a request has reached its handler
+    sh: Shared,
+    conn: Option<h2::client::Connection<tokio::io::DuplexStream, Bytes>>,
+    sr: Option<h2::client::SendRequest<Bytes>>,
+    conn_end: Option<Option<String>>,
+    st: Vec<CStream>,
+    rr: usize,
+    events: u64,
+    quiescences: u64,
+    flushes: u64,
+    phase2: bool,
+    victims_choked_conn: bool,
+    cur_sw: u32,
+    resized: bool,
+    shrunk: bool,
+    pokes: u32,
+    /// observation only: bytes of earlier chunks still undelivered at a quiescence although the
+    /// body had already been polled for a later chunk (how far the dispatcher reads ahead of the window)
+    read_ahead: usize,
+    harness: Vec<String>,
+}
+
+impl Client {
+    fn poll_event(&mut self, cx: &mut Context<'_>) -> Poll<Ev> {
+        if let Some(c) = self.conn.as_mut() {
+            if let Poll::Ready(r) = Pin::new(c).poll(cx) {
+                self.conn = None;
+                self.conn_end = Some(r.err().map(|e| e.to_string()));
+                return Poll::Ready(Ev::Conn);
+            }
+        }
+        let n = self.st.len();
+        for j in 0..n {
+            let i = (self.rr + j) % n;
+            let s = &mut self.st[i];
+            match &mut s.phase {
+                Phase::Unopened | Phase::Done => {}
+                Phase::Head(fut) => {
+                    if let Poll::Ready(r) = Pin::new(fut).poll(cx) {
+                        self.rr = i + 1;
+                        match r {
+                            Ok(resp) => {
+                                let (parts, body) = resp.into_parts();
+                                let mut hs: Vec<(String, Vec<u8>)> =
+                                    parts.headers.iter().map(|(k, v)| (k.as_str().to_string(), v.as_bytes().to_vec())).collect();
+                                hs.sort();
+                                s.head = Some((parts.status.as_u16(), hs));
+                                s.recv = Some(body);
+                                s.phase = Phase::Body;
+                                return Poll::Ready(Ev::Head(i));
+                            }
+                            Err(e) => {
+                                s.end = End::Err(e.to_string());
+                                s.phase = Phase::Done;
+                                return Poll::Ready(Ev::End(i));
+                            }
+                        }
+                    }
+                }
+                Phase::Body => {
+                    let rs = s.recv.as_mut().expect("body phase has a RecvStream");
+                    match rs.poll_data(cx) {
+                        Poll::Ready(Some(Ok(b))) => {
+                            self.rr = i + 1;
+                            for (k, x) in b.iter().enumerate() {
+                                if *x != pat(i, s.got + k) {
+                                    if s.bad_at.is_none() {
+                                        s.bad_at = Some(s.got + k);
+                                    }
+                                    break;
+                                }
+                            }
+                            s.got += b.len();
+                            s.nchunks += 1;
+                            s.max_chunk = s.max_chunk.max(b.len());
+                            s.pending += b.len();
+                            s.pending_chunks += 1;
+                            return Poll::Ready(Ev::Data(i));
+                        }
+                        Poll::Ready(Some(Err(e))) => {
+                            self.rr = i + 1;
+                            s.end = End::Err(e.to_string());
+                            s.phase = Phase::Done;
+                            return Poll::Ready(Ev::End(i));
+                        }
+                        Poll::Ready(None) => {
+                            self.rr = i + 1;
+                            match rs.poll_trailers(cx) {
+                                Poll::Ready(Ok(t)) => {
+                                    s.trailers = t.is_some();
+                                    s.end = End::Clean;
+                                }
+                                Poll::Ready(Err(e)) => s.end = End::Err(format!("trailers: {e}")),
+                                Poll::Pending => {
+                                    // data ended but trailers pending: not expected after `None`
+                                    s.end = End::Err("trailers pending after end of data".into());
+                                }
+                            }
+                            s.phase = Phase::Done;
+                            return Poll::Ready(Ev::End(i));
+                        }
+                        Poll::Pending => {}
+                    }
+                }
+            }
+        }
+        Poll::Pending
+    }
+
+    fn release(&mut self, i: usize, n: usize) {
+        let s = &mut self.st[i];
+        let n = n.min(s.pending);
+        if n == 0 {
+            return;
+        }
+        if let Some(rs) = s.recv.as_mut() {
+            if let Err(e) = rs.flow_control().release_capacity(n) {
+                // a stream that was reset by the peer has already given its capacity back
+                if s.end == End::Open {
+                    self.harness.push(format!("release_capacity({n}) on stream {i}: {e}"));
+                }
+            }
+        }
+        s.pending -= n;
+        if s.pending == 0 {
+            s.pending_chunks = 0;
+        }
+    }
+
+    fn reset(&mut self, i: usize) {
+        let s = &mut self.st[i];
+        if let Some(tx) = s.send.as_mut() {
+            tx.send_reset(h2::Reason::CANCEL);
+        }
+        // a client that gave the stream up keeps no handle to it (h2 returns the connection-level
+        // credit of a closed stream only when its last handle is gone)
+        s.send = None;
+        s.end = End::ClientReset;
+        s.phase = Phase::Done;
+        s.recv = None;
+        s.pending = 0;
+        s.pending_chunks = 0;
+    }
+
+    async fn open(&mut self, i: usize) {
+        let spec = self.case.streams[i].clone();
+        let Some(mut sr) = self.sr.take() else {
+            self.st[i].open_err = Some("connection gone".into());
+            self.st[i].end = End::Err("connection gone".into());
+            self.st[i].phase = Phase::Done;
+            return;
+        };
+        let ready = tokio::time::timeout(
+            Duration::from_secs(2),
+            std::future::poll_fn(|cx| {
+                if let Some(c) = self.conn.as_mut() {
+                    if let Poll::Ready(r) = Pin::new(c).poll(cx) {
+                        self.conn = None;
+                        self.conn_end = Some(r.err().map(|e| e.to_string()));
+                    }
+                }
+                sr.poll_ready(cx)
+            }),
+        )
+        .await;
+        let fail = |s: &mut CStream, m: String| {
+            s.open_err = Some(m.clone());
+            s.end = End::Err(m);
+            s.phase = Phase::Done;
+        };
+        match ready {
+            Err(_) => {
+                self.harness.push(format!("stream {i}: SendRequest never became ready"));
+                fail(&mut self.st[i], "not ready".into());
+            }
+            Ok(Err(e)) => fail(&mut self.st[i], format!("poll_ready: {e}")),
+            Ok(Ok(())) => {
+                let req = http::Request::builder()
+                    .method(spec.method.as_str())
+                    .uri(format!("http://localhost/{i}"))
+                    .body(())
+                    .expect("request");
+                let has_body = spec.method == "POST";
+                match sr.send_request(req, !has_body) {
+                    Ok((fut, mut tx)) => {
+                        if has_body {
+                            // h2 queues what exceeds the server's window and sends it as credit arrives
+                            if let Err(e) = tx.send_data(fill(i + 1000, 0, spec.req_body), true) {
+                                self.harness.push(format!("stream {i}: send_data(request body): {e}"));
+                            }
+                        }
+                        let s = &mut self.st[i];
+                        s.phase = Phase::Head(fut);
+                        s.send = Some(tx);
+                    }
+                    Err(e) => fail(&mut self.st[i], format!("send_request: {e}")),
+                }
+            }
+        }
+        self.sr = Some(sr);
+    }
+
+    fn after_event(&mut self, ev: Ev) {
+        match ev {
+            Ev::Conn => {}
+            Ev::Head(i) => {
+                if matches!(self.case.streams[i].reset, Some(ResetAt::Head | ResetAt::Open)) {
+                    self.reset(i);
+                }
+            }
+            Ev::Data(i) => {
+                if self.st[i].pending >= self.cur_sw as usize {
+                    self.st[i].window_full += 1;
+                }
+                if let Some(ResetAt::Chunk(k)) = self.case.streams[i].reset {
+                    if self.st[i].nchunks >= k.max(1) {
+                        self.reset(i);
+                        return;
+                    }
+                }
+                match self.st[i].rel {
+                    Rel::Imm => {
+                        let p = self.st[i].pending;
+                        self.release(i, p);
+                    }
+                    Rel::Every(k) => {
+                        if self.st[i].pending_chunks >= k {
+                            let p = self.st[i].pending;
+                            self.release(i, p);
+                        }
+                    }
+                    Rel::Drip(_) | Rel::Lazy | Rel::Never(_) => {}
+                }
+            }
+            Ev::End(i) => {
+                self.st[i].send = None;
+                // a finished stream gives its credit back unless it is a victim still being starved
+                if !matches!(self.st[i].rel, Rel::Never(_)) {
+                    let p = self.st[i].pending;
+                    self.release(i, p);
+                    self.st[i].recv = None;
+                    self.st[i].pending = 0;
+                }
+            }
+        }
+    }
+
+    /// Nothing is runnable.  Returns false when the run is over.
+    async fn quiescent(&mut self) -> bool {
+        self.quiescences += 1;
+        {
+            let sh = self.sh.borrow();
+            for (i, s) in self.st.iter().enumerate() {
+                if matches!(s.phase, Phase::Body) && s.end == End::Open {
+                    self.read_ahead = self.read_ahead.max(sh.recs[i].last_start.saturating_sub(s.got));
+                }
+            }
+        }
+        // 1. streams that are still to be opened
+        if let Some(i) = (0..self.st.len()).find(|&i| matches!(self.st[i].phase, Phase::Unopened)) {
+            self.open(i).await;
+            return true;
+        }
+        // 2. hand back every deferred credit (victims excepted)
+        let mut flushed = false;
+        for i in 0..self.st.len() {
+            if self.st[i].pending > 0 && !matches!(self.st[i].rel, Rel::Never(_)) && matches!(self.st[i].phase, Phase::Body) {
+                let p = self.st[i].pending;
+                self.release(i, p);
+                flushed = true;
+            }
+        }
+        if flushed {
+            self.flushes += 1;
+            return true;
+        }
+        // 2b. after SETTINGS_INITIAL_WINDOW_SIZE was lowered the h2 client re-evaluates which
+        //     WINDOW_UPDATEs it owes only on the next release_capacity call: make that call (for 0
+        //     bytes) so that the client really holds nothing back
+        if self.shrunk && self.pokes < 2 {
+            self.pokes += 1;
+            for s in self.st.iter_mut() {
+                if matches!(s.phase, Phase::Body) {
+                    if let Some(rs) = s.recv.as_mut() {
+                        let _ = rs.flow_control().release_capacity(0);
+                    }
+                }
+            }
+            return true;
+        }
+        // 3. first time with nothing held back: judge the non-victims, then deal with the victims
+        if !self.phase2 {
+            self.phase2 = true;
+            let held: usize = self.st.iter().filter(|s| matches!(s.rel, Rel::Never(_))).map(|s| s.pending).sum();
+            let choked = held as u64 >= self.case.cw as u64;
+            self.victims_choked_conn = choked;
+            let mut any_victim = false;
+            for i in 0..self.st.len() {
+                match self.st[i].rel {
+                    Rel::Never(late) => {
+                        any_victim = true;
+                        match late {
+                            Late::Release => {
+                                self.st[i].rel = Rel::Imm;
+                                self.st[i].late_released = true;
+                                let p = self.st[i].pending;
+                                self.release(i, p);
+                                if matches!(self.st[i].phase, Phase::Done) {
+                                    self.st[i].recv = None;
+                                }
+                            }
+                            Late::Reset => {
+                                if !matches!(self.st[i].phase, Phase::Done) {
+                                    self.reset(i);
+                                }
+                            }
+                            Late::Hold => {}
+                        }
+                    }
+                    _ => {
+                        if !matches!(self.st[i].phase, Phase::Done) && !choked {
+                            self.st[i].stalled = true;
+                        }
+                    }
+                }
+            }
+            if any_victim {
+                return true;
+            }
+        }
+        // 4. final: whoever owes a complete response and has not finished is stalled (unless victims
+        //    that are still being held keep the whole connection window)
+        let held: usize = self.st.iter().filter(|s| matches!(s.rel, Rel::Never(_))).map(|s| s.pending).sum();
+        if held as u64 >= self.case.cw as u64 {
+            self.victims_choked_conn = true;
+            return false;
+        }
+        for s in self.st.iter_mut() {
+            if !matches!(s.phase, Phase::Done) && !matches!(s.rel, Rel::Never(_)) {
+                s.stalled = true;
+            }
+        }
+        false
+    }
+}
+
+async fn run_case(case: Case) -> Obs {
+    let t0 = tokio::time::Instant::now();
+    let n = case.streams.len();
+    let sh: Shared = Rc::new(RefCell::new(Sh { specs: case.streams.clone(), recs: vec![Rec::default(); n] }));
+    let (cio, sio) = tokio::io::duplex(case.pipe.max(1));
+
+    let sh2 = sh.clone();
+    let factory = HttpService::build()
+        .keep_alive(if case.keep_alive_s == 0 { KeepAlive::Disabled } else { KeepAlive::Timeout(Duration::from_secs(case.keep_alive_s)) })
+        .h2_initial_window_size(case.srv_sw)
+        .h2_initial_connection_window_size(case.srv_cw)
+        .finish(fn_service(move |req: Request| handler(sh2.clone(), req)));
+    let svc = factory.new_service(()).await.expect("service init");
+    let srv = actix_rt::spawn(svc.call((sio, Protocol::Http2, None)));
+
+    let mut cl = Client {
+        case: case.clone(),
+        sh: sh.clone(),
+        conn: None,
+        sr: None,
+        conn_end: None,
+        st: (0..n)
+            .map(|i| CStream {
+                phase: Phase::Unopened,
+                send: None,
+                recv: None,
+                rel: case.streams[i].rel,
+                head: None,
+                open_err: None,
+                got: 0,
+                bad_at: None,
+                nchunks: 0,
+                max_chunk: 0,
+                pending: 0,
+                pending_chunks: 0,
+                end: End::Open,
+                trailers: false,
+                stalled: false,
+                late_released: false,
+                window_full: 0,
+            })
+            .collect(),
+        rr: 0,
+        events: 0,
+        quiescences: 0,
+        flushes: 0,
+        phase2: false,
+        victims_choked_conn: false,
+        cur_sw: case.sw,
+        resized: false,
+        shrunk: false,
+        pokes: 0,
+        read_ahead: 0,
+        harness: vec![],
+    };
+    let mut handshake_err = None;
+
+    let mut b = h2::client::Builder::new();
+    b.initial_window_size(case.sw).initial_connection_window_size(case.cw);
+    match tokio::time::timeout(Duration::from_secs(2), b.handshake::<_, Bytes>(cio)).await {
+        Ok(Ok((sr, conn))) => {
+            cl.sr = Some(sr);
+            cl.conn = Some(conn);
+        }
+        Ok(Err(e)) => handshake_err = Some(e.to_string()),
+        Err(_) => handshake_err = Some("handshake deadlocked".into()),
+    }
+
+    if handshake_err.is_none() {
+        let cap: u64 = 3_000_000;
+        loop {
+            // streams that are due
+            for i in 0..n {
+                if matches!(cl.st[i].phase, Phase::Unopened) && cl.events >= case.streams[i].open_after as u64 {
+                    cl.open(i).await;
+                }
+            }
+            // "reset right after opening": as soon as the request is known to have reached its
+            // handler (h2's client drops a still-queued HEADERS frame when the stream is reset and
+            // then sends RST_STREAM for an idle stream, a connection error of its own making)
+            for i in 0..n {
+                if case.streams[i].reset == Some(ResetAt::Open) && matches!(cl.st[i].phase, Phase::Head(_)) && cl.sh.borrow().recs[i].invoked > 0 {
+                    cl.reset(i);
+                }
+            }
+            // mid-connection SETTINGS change
+            if let Some((at, nsw)) = case.resize {
+                if !cl.resized && cl.events >= at as u64 {
+                    if let Some(c) = cl.conn.as_mut() {
+                        // refused while the previous SETTINGS frame is not acknowledged yet: try again later
+                        if c.set_initial_window_size(nsw).is_ok() {
+                            cl.resized = true;
+                            cl.shrunk = nsw < cl.cur_sw;
+                            cl.cur_sw = nsw;
+                        }
+                    }
+                }
+            }
+            // dripping streams give back a little on every step
+            for i in 0..n {
+                if let Rel::Drip(k) = cl.st[i].rel {
+                    if cl.st[i].pending > 0 && matches!(cl.st[i].phase, Phase::Body) {
+                        cl.release(i, k.max(1));
+                    }
+                }
+            }
+            if cl.st.iter().all(|s| matches!(s.phase, Phase::Done)) {
+                break;
+            }
+            let ev = tokio::time::timeout(Duration::from_secs(1), std::future::poll_fn(|cx| cl.poll_event(cx))).await;
+            match ev {
+                Ok(ev) => {
+                    cl.events += 1;
+                    cl.after_event(ev);
+                }
+                Err(_) => {
+                    if !cl.quiescent().await {
+                        break;
+                    }
+                }
+            }
+            if cl.events + cl.quiescences > cap {
+                cl.harness.push("event cap reached".into());
+                break;
+            }
+        }
+    }
+
+    let streams: Vec<SObs> = cl
+        .st
+        .iter()
+        .map(|s| SObs {
+            head: s.head.clone(),
+            open_err: s.open_err.clone(),
+            got: s.got,
+            bad_at: s.bad_at,
+            nchunks: s.nchunks,
+            max_chunk: s.max_chunk,
+            end: s.end.clone(),
+            trailers: s.trailers,
+            stalled: s.stalled,
+            late_released: s.late_released,
+            window_full: s.window_full,
+            held_at_end: s.pending,
+        })
+        .collect();
+    let (events, quiescences, flushes, phase2, choked, conn_end, harness) =
+        (cl.events, cl.quiescences, cl.flushes, cl.phase2, cl.victims_choked_conn, cl.conn_end.clone(), cl.harness.clone());
+    let read_ahead = cl.read_ahead;
+    // close the client; the server connection must wind down (observed, not judged)
+    drop(cl);
+    let server = match tokio::time::timeout(Duration::from_secs(30), srv).await {
+        Ok(Ok(Ok(()))) => "ok".to_string(),
+        Ok(Ok(Err(e))) => format!("err:{}", short_err(&format!("{e:?}"))),
+        Ok(Err(je)) => {
+            if je.is_panic() {
+                "PANIC".to_string()
+            } else {
+                "cancelled".to_string()
+            }
+        }
+        Err(_) => "still-running".to_string(),
+    };
+    // let handler tasks observe the closed connection and drop their bodies
+    for _ in 0..4 {
+        tokio::task::yield_now().await;
+    }
+    let recs = sh.borrow().recs.clone();
+    Obs {
+        streams,
+        recs,
+        conn_end,
+        handshake_err,
+        events,
+        quiescences,
+        flushes,
+        phase2,
+        victims_choked_conn: choked,
+        read_ahead,
+        server,
+        harness,
+        virtual_ms: t0.elapsed().as_millis() as u64,
+    }
+}
+
+fn short_err(s: &str) -> String {
+    let s: String = s.chars().filter(|c| !c.is_ascii_digit()).collect();
+    s.chars().take(60).collect()
+}
+
+// ------------------------------------------------------------------------------------------------
+// oracle
+
+struct Viol {
+    class: &'static str,
+    sig: String,
+    detail: String,
+}
+
+fn cl_values(h: &[(String, Vec<u8>)]) -> Vec<String> {
+    h.iter().filter(|(k, _)| k == "content-length").map(|(_, v)| String::from_utf8_lossy(v).to_string()).collect()
+}
+
+fn judge(case: &Case, obs: &Obs, rep: &mut Reporter) -> Vec<Viol> {
+    let mut out = vec![];
+    if let Some(e) = &obs.handshake_err {
+        out.push(Viol { class: "handshake", sig: "h2 handshake".into(), detail: format!("HTTP/2 handshake failed: {e}") });
+        return out;
+    }
+    if obs.server == "PANIC" {
+        out.push(Viol { class: "panic", sig: "server connection task".into(), detail: "the server connection future panicked".into() });
+    }
+    rep.count(&format!("server-connection-end:{}", obs.server), 1);
+    match &obs.conn_end {
+        None => rep.count("client-connection:open-at-end", 1),
+        Some(None) => rep.count("client-connection:closed-clean", 1),
+        Some(Some(_)) => rep.count("client-connection:error", 1),
+    }
+
+    for (i, spec) in case.streams.iter().enumerate() {
+        let o = &obs.streams[i];
+        let r = &obs.recs[i];
+        let cls = spec.class();
+        let rel = format!("{:?}", spec.rel);
+        let mut v = |class: &'static str, extra: &str, detail: String| {
+            out.push(Viol {
+                class,
+                // a body on a bodiless response does not depend on what kind of body it is
+                sig: if extra.starts_with("bodiless") {
+                    format!("{} {} | {extra}", spec.method, spec.status)
+                } else if extra.is_empty() {
+                    cls.clone()
+                } else {
+                    format!("{cls} | {extra}")
+                },
+                detail: format!("stream #{i} ({cls}; release {rel}; sw={} cw={}; {} streams): {detail}", case.sw, case.cw, case.streams.len()),
+            })
+        };
+
+        // what the stream owes
+        let client_reset = o.end == End::ClientReset;
+        let starved_victim = spec.victim() && !o.late_released;
+        let owes_all = !client_reset && !starved_victim;
+
+        rep.count(&format!("streams:{}", if client_reset { "client-reset" } else if starved_victim { "victim-unreleased" } else if o.late_released { "victim-released-late" } else { "normal" }), 1);
+        rep.count("data-chunks-received", o.nchunks as u64);
+        rep.count("bytes-received", o.got as u64);
+        rep.max("data-chunk-bytes", o.max_chunk as u64);
+        rep.count("stream-window-exhausted-events", o.window_full);
+        if r.empty_chunks > 0 {
+            rep.count("empty-chunks-yielded-by-bodies", r.empty_chunks as u64);
+        }
+        if o.trailers {
+            rep.count("trailers-received", 1);
+        }
+
+        // --- clauses on whatever was received, whoever the stream is
+        if let Some(at) = o.bad_at {
+            v("body-bytes", "", format!("byte {at} of the received body differs from what the body produced ({} bytes received)", o.got));
+            continue;
+        }
+        if o.got > spec.total() && !spec.liar() {
+            v("body-bytes", "extra", format!("{} bytes received, the body produced {}", o.got, spec.total()));
+            continue;
+        }
+        if let Some((status, hs)) = &o.head {
+            if *status != spec.status {
+                v("status", "", format!("status {status}, handler answered {}", spec.status));
+            }
+            let hop: Vec<&str> = hs.iter().map(|(k, _)| k.as_str()).filter(|k| HOP.contains(k)).collect();
+            if !hop.is_empty() {
+                v("hop-header", &hop.join(","), format!("connection-specific header(s) {hop:?} arrived on HTTP/2"));
+            }
+            if hs.iter().filter(|(k, _)| k == "x-idx").count() != 1 || !hs.iter().any(|(k, val)| k == "x-idx" && val == i.to_string().as_bytes()) {
+                v("head-mixup", "", "x-idx of the response is not the stream's own".to_string());
+            }
+            if spec.bodiless() && o.got > 0 {
+                v("body-on-bodiless", "bodiless", format!("{} DATA bytes on a {} {} response", o.got, spec.method, spec.status));
+            }
+            // content-length
+            let cls_v = cl_values(hs);
+            rep.count(if cls_v.is_empty() { "content-length:absent" } else { "content-length:present" }, 1);
+            if cls_v.len() > 1 {
+                v("content-length", "duplicate", format!("{} content-length fields: {cls_v:?}", cls_v.len()));
+            } else if let Some(c) = cls_v.first() {
+                let user_cl: Option<&String> = spec.hdrs.iter().find(|(k, _)| k == "content-length").map(|(_, val)| val);
+                let want: Option<u64> = if spec.liar() || (spec.errs() && !spec.kind.sized()) {
+                    None
+                } else if spec.status == 304 && user_cl.is_some_and(|u| u == c) {
+                    // on a 304 the field describes the representation a 200 would carry: the
+                    // handler's own value may be retained
+                    None
+                } else if spec.status == 204 {
+                    Some(0)
+                } else if spec.kind.sized() {
+                    Some(spec.declared())
+                } else {
+                    // streamed body: only a handler-supplied (honest) value can be there
+                    Some(spec.data_all() as u64)
+                };
+                match (c.parse::<u64>(), want) {
+                    (Err(_), _) => v("content-length", "unparsable", format!("content-length {c:?}")),
+                    (Ok(n), Some(w)) if n != w => v("content-length", "mismatch", format!("content-length {n}, body length {w}")),
+                    _ => {}
+                }
+            }
+        }
+
+        // --- completeness
+        if o.stalled {
+            let hp = if o.head.is_some() { "head received" } else { "no head" };
+            v(
+                "stall",
+                "",
+                format!(
+                    "nothing is runnable, the client holds back no credit, and the response is incomplete ({hp}, {} of {} bytes, handler invoked {}x, body yielded {} bytes in {} chunks)",
+                    o.got,
+                    spec.total(),
+                    r.invoked,
+                    r.yielded,
+                    r.chunks
+                ),
+            );
+            continue;
+        }
+        if !owes_all {
+            continue;
+        }
+        if o.end == End::Open && obs.victims_choked_conn {
+            // the run ended while victims kept the whole connection window: the peer granted
+            // nothing, so nothing is owed
+            rep.count("streams-unjudged:victims-held-the-whole-connection-window", 1);
+            continue;
+        }
+        if let Some(e) = &o.open_err {
+            rep.inconclusive(&format!("stream could not be opened: {e}"));
+            continue;
+        }
+        if spec.liar() {
+            rep.count(&format!("lying-size-outcome:{}", match &o.end { End::Clean => "clean", End::Err(_) => "error", _ => "other" }), 1);
+            continue;
+        }
+        let Some(_) = &o.head else {
+            let e = if let End::Err(e) = &o.end { e.clone() } else { format!("{:?}", o.end) };
+            v("no-response", "", format!("no response head: {e}"));
+            continue;
+        };
+        if spec.bodiless() {
+            if o.end != End::Clean {
+                v("incomplete", "bodiless", format!("bodiless response did not end cleanly: {:?}", o.end));
+            }
+            rep.count("outcome:bodiless-clean", 1);
+            continue;
+        }
+        let sized_all_delivered = spec.kind.sized() && o.got as u64 == spec.declared();
+        match (&o.end, r.end) {
+            (End::Clean, 1) => {
+                if o.got != spec.total() || o.got != r.yielded {
+                    v("body-bytes", "short", format!("clean end after {} bytes, the body produced {}", o.got, r.yielded));
+                } else {
+                    rep.count("outcome:complete-exact", 1);
+                    if spec.method == "POST" {
+                        if r.req_len != spec.req_body || r.req_bad_at.is_some() || r.req_end != Some(Ok(())) {
+                            v("request-body", "", format!("handler read {} of {} request bytes (bad at {:?}, end {:?})", r.req_len, spec.req_body, r.req_bad_at, r.req_end));
+                        } else {
+                            rep.count("request-bodies-delivered-exact", 1);
+                        }
+                    }
+                }
+            }
+            // the body failed, or was not polled to its end: a clean end is only right when every
+            // declared byte of a sized body was delivered before
+            (End::Clean, 2) if !sized_all_delivered => {
+                v("body-error-clean-end", "", format!("the body failed after {} bytes but the stream ended cleanly ({} received)", r.yielded, o.got))
+            }
+            (End::Clean, 0) if !sized_all_delivered => {
+                v("body-bytes", "abandoned", format!("clean end after {} bytes although the body was not polled to its end ({} yielded so far)", o.got, r.yielded))
+            }
+            (End::Clean, _) => rep.count("outcome:sized-body-complete-before-its-end", 1),
+            (End::Err(_), 2) => rep.count("outcome:body-error-seen-as-stream-error", 1),
+            (End::Err(e), _) => v("incomplete", "", format!("stream error {e:?} after {} of {} bytes; the body did not fail", o.got, spec.total())),
+            (e, _) => v("incomplete", "", format!("unexpected end {e:?}")),
+        }
+    }
+    if !obs.harness.is_empty() {
+        rep.inconclusive(&format!("harness: {}", obs.harness.join("; ")));
+    }
+    out
+}
+
+// ------------------------------------------------------------------------------------------------
+// running one case
+
+fn bucket(n: usize) -> &'static str {
+    match n {
+        1 => "1",
+        2 => "2",
+        3..=4 => "3-4",
+        5..=8 => "5-8",
+        9..=16 => "9-16",
+        _ => "17-32",
+    }
+}
+
+fn cw_class(case: &Case) -> &'static str {
+    let held: u64 = case.streams.iter().filter(|s| s.victim()).map(|s| (s.total() as u64).min(case.sw as u64)).sum();
+    let free = (case.cw as u64).saturating_sub(held);
+    match free {
+        0 => "0",
+        1..=99 => "<100",
+        100..=16_383 => "<16k",
+        16_384..=65_534 => "<64k",
+        65_535 => "64k",
+        _ => ">64k",
+    }
+}
+
+fn rel_class(r: Rel) -> String {
+    match r {
+        Rel::Imm => "imm".into(),
+        Rel::Every(k) => format!("every{}", k.min(4)),
+        Rel::Drip(n) => format!("drip{}", if n == 1 { "1" } else if n < 50 { "7" } else { "100" }),
+        Rel::Lazy => "lazy".into(),
+        Rel::Never(l) => format!("never-{l:?}"),
+    }
+}
+
+fn exec(case: &Case, rep: &mut Reporter, sample_kind: Option<&str>) {
+    rep.eval();
+    let c2 = case.clone();
+    let obs = match guard(move || run_virtual(run_case(c2))) {
+        Ok(o) => o,
+        Err(p) => {
+            rep.violation("panic", &panic_site(&p), &format!("panic while serving an HTTP/2 connection: {p}"), serde_json::to_value(case).unwrap());
+            return;
+        }
+    };
+    rep.count("client-events", obs.events);
+    rep.count("quiescences", obs.quiescences);
+    rep.count("quiescences-with-deferred-credit-flushed", obs.flushes);
+    rep.max("virtual-ms-per-case", obs.virtual_ms);
+    if obs.victims_choked_conn {
+        rep.count("cases-where-victims-exhausted-the-connection-window", 1);
+    }
+    if case.resize.is_some() {
+        rep.count("cases-with-settings-resize", 1);
+    } else {
+        // not part of the statement (back-pressure), reported so that a dispatcher that hands whole
+        // chunks to h2 regardless of the capacity it was given shows up in the evidence
+        rep.max("bytes-of-earlier-chunks-undelivered-at-quiescence-while-a-later-chunk-was-already-polled", obs.read_ahead as u64);
+    }
+    let n = case.streams.len();
+    for s in &case.streams {
+        let reset = match s.reset {
+            None => "-".to_string(),
+            Some(ResetAt::Open) => "open".into(),
+            Some(ResetAt::Head) => "head".into(),
+            Some(ResetAt::Chunk(k)) => format!("chunk{}", k.min(4)),
+        };
+        rep.sig(&format!("sw{}|cw{}|{}|{}|n{}|rst:{}{}", case.sw, cw_class(case), rel_class(s.rel), s.chunk_class(case.sw), bucket(n), reset, if case.resize.is_some() { "|resize" } else { "" }));
+    }
+    let viols = judge(case, &obs, rep);
+    for v in &viols {
+        rep.violation(v.class, &v.sig, &v.detail, serde_json::to_value(case).unwrap());
+    }
+    if let Some(k) = sample_kind {
+        rep.sample(
+            k,
+            json!({
+                "case": case,
+                "events": obs.events,
+                "quiescences": obs.quiescences,
+                "streams": obs.streams.iter().map(|s| json!({"status": s.head.as_ref().map(|h| h.0), "bytes": s.got, "chunks": s.nchunks, "end": format!("{:?}", s.end)})).collect::<Vec<_>>(),
+            }),
+        );
+    }
+}
+
+// ------------------------------------------------------------------------------------------------
+// workloads
+
+fn base_case(sw: u32, cw: u32) -> Case {
+    Case { sw, cw, pipe: 65_536, keep_alive_s: 3600, srv_sw: 1 << 20, srv_cw: 2 << 20, resize: None, streams: vec![] }
+}
+
+fn base_stream() -> StreamSpec {
+    StreamSpec {
+        method: "GET".into(),
+        req_body: 0,
+        status: 200,
+        hdrs: vec![],
+        kind: Kind::Bytes,
+        steps: vec![Step::D(10)],
+        delta: 0,
+        fail: false,
+        rel: Rel::Imm,
+        reset: None,
+        open_after: 0,
+    }
+}
+
+/// rough number of client events a stream costs
+fn cost(s: &StreamSpec, sw: u32) -> u64 {
+    if s.bodiless() {
+        return 2;
+    }
+    let mut grant = (sw as u64).min(FRAME as u64).max(1);
+    if matches!(s.rel, Rel::Never(Late::Hold | Late::Reset)) {
+        return 2 + (s.total() as u64).min(sw as u64) / grant;
+    }
+    if let Rel::Drip(k) = s.rel {
+        grant = grant.min(k.max(1) as u64);
+    }
+    2 + s.total() as u64 / grant + s.steps.len() as u64
+}
+
+fn grid_chunkings(sw: u32) -> Vec<(&'static str, Vec<Step>)> {
+    use Step::*;
+    let w = sw as usize;
+    vec![
+        ("single-small", vec![D(37)]),
+        ("many-small", vec![D(1), D(2), D(3), D(50), D(7)]),
+        (">window", vec![D(2 * w + 3)]),
+        ("=window", vec![D(w), D(1), D(w.saturating_sub(1)), D(w + 1)]),
+        (">16k", vec![D(FRAME + 1), D(40_000)]),
+        ("=16k", vec![D(FRAME), D(FRAME - 1), D(FRAME + 1)]),
+        ("empties", vec![D(0), D(5), D(0), D(0), D(9), D(0)]),
+        ("only-empties", vec![D(0), D(0)]),
+        ("yields", vec![Y, D(10), Y, Y, D(w + 1), Y]),
+        ("err-mid", vec![D(10), D(20), E, D(5)]),
+        ("err-first", vec![E]),
+        ("no-chunk", vec![]),
+    ]
+}
+
+fn grid(ctx: &Ctx, rep: &mut Reporter) {
+    let budget: u64 = if ctx.is_miri() { 60 } else if ctx.thorough() { 60_000 } else { 1_500 };
+    let sws: &[u32] = if ctx.is_miri() { &[1, 100] } else { &[1, 100, 16_384, 65_535] };
+    let cws = [65_535u32, 1 << 20];
+    let rels = [Rel::Imm, Rel::Every(3), Rel::Drip(1), Rel::Lazy];
+    let kinds = [Kind::Bytes, Kind::SizedStream, Kind::BodyStream, Kind::CustomStream, Kind::CustomSized];
+    let ms = [("GET", 200u16), ("HEAD", 200), ("GET", 204), ("GET", 304), ("GET", 404)];
+    let mut idx = 0u64;
+    let mut complete = true;
+    let mut skipped_by_budget = 0u64;
+    'outer: for &sw in sws {
+        let chunkings = grid_chunkings(sw);
+        for &cw in &cws {
+            for rel in rels {
+                for (cname, steps) in &chunkings {
+                    for kind in kinds {
+                        if kind == Kind::Bytes && steps.iter().any(|s| !matches!(s, Step::D(n) if *n > 0)) {
+                            continue; // Bytes ignores yields/errors/empties: same cell as another chunking
+                        }
+                        for (m, st) in ms {
+                            for nstreams in [1usize, 3] {
+                                let mut c = base_case(sw, cw);
+                                for _ in 0..nstreams {
+                                    let mut s = base_stream();
+                                    s.method = m.into();
+                                    s.status = st;
+                                    s.kind = kind;
+                                    s.steps = steps.clone();
+                                    s.rel = rel;
+                                    c.streams.push(s);
+                                }
+                                let cost: u64 = c.streams.iter().map(|s| cost(s, sw)).sum();
+                                if cost > budget {
+                                    skipped_by_budget += 1;
+                                    continue;
+                                }
+                                idx += 1;
+                                if !ctx.mine(idx) {
+                                    continue;
+                                }
+                                if ctx.out_of_time() {
+                                    complete = false;
+                                    break 'outer;
+                                }
+                                let sample = if *cname == ">window" && kind == Kind::BodyStream && nstreams == 3 && rel == Rel::Lazy && sw == 100 && m == "GET" && st == 200 && cw == 65_535 {
+                                    Some("grid-cell")
+                                } else {
+                                    None
+                                };
+                                exec(&c, rep, sample);
+                                rep.count("grid-cells", 1);
+                            }
+                        }
+                    }
+                }
+            }
+        }
+    }
+    rep.count("grid-cells-over-event-budget-(not-run)", if ctx.shard == 0 { skipped_by_budget } else { 0 });
+    rep.exhaustive("stream window x connection window x release pattern x chunking x body kind x method/status x {1,3} streams (cells under the event budget)", complete);
+}
+
+fn gen_steps(rng: &mut Rng, sw: u32, kind: Kind) -> Vec<Step> {
+    let w = sw as usize;
+    let n = *rng.pick(&[0usize, 1, 1, 2, 3, 4, 6, 9]);
+    let mut v = vec![];
+    for _ in 0..n {
+        let r = rng.below(100);
+        let s = if r < 12 {
+            Step::Y
+        } else if r < 22 && kind.verbatim() {
+            Step::D(0)
+        } else if r < 24 {
+            Step::D(0)
+        } else if r < 50 {
+            Step::D(rng.range(1, 100))
+        } else if r < 60 {
+            Step::D(rng.range(100, 5_000))
+        } else if r < 70 {
+            Step::D(*rng.pick(&[w.saturating_sub(1).max(1), w, w + 1, 2 * w + 3]).min(&140_000))
+        } else if r < 80 {
+            Step::D(*rng.pick(&[FRAME - 1, FRAME, FRAME + 1, 2 * FRAME, 40_000]))
+        } else if r < 90 {
+            Step::D(rng.range(1, 20))
+        } else {
+            Step::D(rng.range(5_000, 70_000))
+        };
+        v.push(s);
+    }
+    if kind.scripted() && rng.chance(1, 9) {
+        let at = rng.below(v.len() + 1);
+        v.insert(at, Step::E);
+    }
+    v
+}
+
+/// smallest credit the schedule can make the server work with
+fn eff_grant(c: &Case) -> u32 {
+    let held: u64 = c.streams.iter().filter(|s| s.victim()).map(|s| (s.total() as u64).min(c.sw as u64)).sum();
+    let free = (c.cw as u64).saturating_sub(held).max(1).min(u32::MAX as u64) as u32;
+    let rs = c.resize.map(|r| r.1).unwrap_or(c.sw);
+    c.sw.min(rs).min(free).max(1)
+}
+
+fn shrink_to_budget(c: &mut Case, budget: u64) {
+    for _ in 0..64 {
+        let sw = eff_grant(c);
+        let total: u64 = c.streams.iter().map(|s| cost(s, sw)).sum();
+        if total <= budget {
+            return;
+        }
+        // halve the largest chunk of the most expensive stream
+        let Some(s) = c.streams.iter_mut().max_by_key(|s| cost(s, sw)) else { return };
+        if let Some(Step::D(n)) = s.steps.iter_mut().filter(|x| matches!(x, Step::D(_))).max_by_key(|x| if let Step::D(n) = x { *n } else { 0 }) {
+            *n /= 2;
+        }
+        if let Rel::Drip(k) = s.rel {
+            if k < 100 && s.total() > 2_000 {
+                s.rel = Rel::Drip(100);
+            }
+        }
+    }
+}
+
+fn gen_case(rng: &mut Rng, budget: u64) -> Case {
+    let n = *rng.pick(&[1usize, 1, 2, 2, 3, 4, 4, 6, 8, 12, 16, 24, 32]);
+    let sw = *rng.pick(&[1u32, 1, 2, 7, 100, 100, 1_000, 16_383, 16_384, 16_385, 65_535, 65_535, 100_000, 1 << 20]);
+    let mut cw = *rng.pick(&[65_535u32, 65_535, 65_536, 100_000, 1 << 20, 1 << 20, 20_000, 3_000]);
+    let mut c = base_case(sw, cw);
+    c.pipe = *rng.pick(&[16usize, 64, 1_024, 16_384, 65_536, 1 << 20]);
+    c.keep_alive_s = *rng.pick(&[0u64, 5, 5, 3600]);
+    if rng.chance(1, 4) {
+        c.srv_sw = *rng.pick(&[65_535u32, 70_000, 200_000]);
+        c.srv_cw = *rng.pick(&[65_535u32, 70_000, 1 << 20]);
+    }
+    if rng.chance(1, 10) {
+        c.resize = Some((rng.range(0, 12), *rng.pick(&[1u32, 50, 100, 1_000, 16_384, 65_535, 200_000])));
+    }
+    let mut resets_at_open = 0;
+    for _ in 0..n {
+        let mut s = base_stream();
+        let m = rng.below(100);
+        s.method = if m < 68 { "GET" } else if m < 84 { "HEAD" } else { "POST" }.into();
+        if s.method == "POST" {
+            s.req_body = *rng.pick(&[0usize, 1, 10, 1_000, 16_384, 70_000, 100_000]);
+            if c.srv_sw <= 100 {
+                s.req_body = s.req_body.min(2_000);
+            }
+        }
+        s.status = *rng.pick(&[200u16, 200, 200, 200, 200, 201, 204, 304, 404, 500, 206]);
+        s.kind = *rng.pick(&[Kind::None, Kind::Bytes, Kind::Bytes, Kind::SizedStream, Kind::BodyStream, Kind::BodyStream, Kind::CustomStream, Kind::CustomStream, Kind::CustomSized]);
+        s.steps = if s.kind == Kind::None { vec![] } else { gen_steps(rng, sw, s.kind) };
+        if s.kind == Kind::Bytes {
+            s.steps.retain(|x| matches!(x, Step::D(_)));
+        }
+        if matches!(s.kind, Kind::SizedStream | Kind::CustomSized) && !s.steps.contains(&Step::E) && rng.chance(1, 20) {
+            s.delta = *rng.pick(&[-3i64, -1, 1, 5]);
+            if s.data_all() as i64 + s.delta < 0 {
+                s.delta = 1;
+            }
+        }
+        s.fail = rng.chance(1, 16);
+        // handler-set headers
+        for (k, vals) in [
+            ("connection", &["close", "keep-alive", "upgrade"][..]),
+            ("transfer-encoding", &["chunked"][..]),
+            ("upgrade", &["websocket"][..]),
+            ("keep-alive", &["timeout=5"][..]),
+            ("proxy-connection", &["keep-alive"][..]),
+        ] {
+            if rng.chance(1, 8) {
+                s.hdrs.push((k.to_string(), rng.pick(vals).to_string()));
+            }
+        }
+        if rng.chance(1, 5) {
+            s.hdrs.push(("x-benign".into(), "1".into()));
+        }
+        if rng.chance(1, 6) {
+            if s.kind.sized() || s.kind == Kind::None {
+                // must be replaced by the real length
+                s.hdrs.push(("content-length".into(), (s.declared() + 7).to_string()));
+            } else if s.status != 204 && !s.steps.contains(&Step::E) {
+                // honest value on a streamed body: may be passed through
+                s.hdrs.push(("content-length".into(), s.data_all().to_string()));
+            }
+        }
+        let r = rng.below(100);
+        s.rel = if r < 34 {
+            Rel::Imm
+        } else if r < 48 {
+            Rel::Every(rng.range(2, 5))
+        } else if r < 62 {
+            Rel::Drip(*rng.pick(&[1usize, 7, 100]))
+        } else if r < 84 {
+            Rel::Lazy
+        } else {
+            Rel::Never(*rng.pick(&[Late::Release, Late::Release, Late::Reset, Late::Hold]))
+        };
+        if rng.chance(1, 8) {
+            let r = *rng.pick(&[ResetAt::Open, ResetAt::Head, ResetAt::Chunk(1), ResetAt::Chunk(2), ResetAt::Chunk(3), ResetAt::Chunk(5)]);
+            if r != ResetAt::Open || resets_at_open < 6 {
+                if r == ResetAt::Open {
+                    resets_at_open += 1;
+                }
+                s.reset = Some(r);
+            }
+        }
+        if rng.chance(1, 5) {
+            s.open_after = rng.range(1, 20);
+        }
+        c.streams.push(s);
+    }
+    // at least one stream that owes everything
+    if c.streams.iter().all(|s| s.victim() || s.reset.is_some()) {
+        c.streams[0].rel = Rel::Lazy;
+        c.streams[0].reset = None;
+    }
+    // victims must leave connection window for the others (most of the time)
+    let win = c.resize.map(|r| r.1.max(c.sw)).unwrap_or(c.sw) as u64;
+    let held: u64 = c.streams.iter().filter(|s| s.victim()).map(|s| (s.total() as u64).min(win)).sum();
+    if held > 0 && !rng.chance(1, 12) {
+        let margin = *rng.pick(&[1u64, 100, 16_384, 65_535]);
+        cw = cw.max((held + margin).min(u32::MAX as u64 / 2) as u32);
+        c.cw = cw;
+    }
+    shrink_to_budget(&mut c, budget);
+    // keep declared sizes honest after shrinking user content-length values
+    for s in c.streams.iter_mut() {
+        let (declared, all, sized) = (s.declared(), s.data_all(), s.kind.sized() || s.kind == Kind::None);
+        for (k, v) in s.hdrs.iter_mut() {
+            if k == "content-length" {
+                *v = if sized { (declared + 7).to_string() } else { all.to_string() };
+            }
+        }
+    }
+    c
+}
+
+pub fn run(ctx: &Ctx, rep: &mut Reporter) {
+    if let Some(r) = &ctx.replay {
+        match serde_json::from_value::<Case>(r.clone()) {
+            Ok(c) => {
+                exec(&c, rep, Some("replay"));
+                rep.sig("replay-a");
+                rep.sig("replay-b");
+            }
+            Err(e) => rep.inconclusive(&format!("replay file is not a C08 case: {e}")),
+        }
+        return;
+    }
+
+    // Phase A: the grid
+    grid(ctx, rep);
+
+    // Phase B: random connections
+    let budget: u64 = if ctx.is_miri() { 60 } else if ctx.thorough() { 8_000 } else { 1_500 };
+    let n = if ctx.is_miri() { 6 } else { ctx.share(9_600, 250_000) };
+    for k in 0..n {
+        if ctx.out_of_time() {
+            break;
+        }
+        let mut rng = Rng::derive(ctx.seed, 8, k * ctx.nshards + ctx.shard);
+        let c = gen_case(&mut rng, budget);
+        let sample = if k == 3 { Some("random-connection") } else { None };
+        exec(&c, rep, sample);
+        rep.count("random-connections", 1);
+        rep.count(&format!("random-connections-with-{}-streams", bucket(c.streams.len())), 1);
+    }
 }
